@@ -15,7 +15,7 @@ package certurl
 // and the total fit in 16 bits; then the output is 2 + total bytes long and
 // starts with the big-endian total.
 //@ func SerializeSCTList
-//@   props C17 C10
+//@   props C17 C10 C18
 //@   returns (out, err)
 //@   requires len(scts) <= 1099511627776
 //@   ensures[error-iff-too-large] err == nil <==> ((forall i int :: 0 <= i && i < len(scts) ==> len(scts[i]) <= 65535) && sctSum(arr(scts), off(scts), len(scts)) <= 65535)
@@ -47,7 +47,7 @@ package certurl
 // Write: nothing is written unless the chain is valid; a failing writer
 // surfaces as an error.
 //@ func (CertChain).Write
-//@   props C17 C19
+//@   props C17 C19 C18
 //@   requires w != nil && !failed(w)
 //@   requires forall i int :: 0 <= i && i < len(certChain) ==> certChain[i] != nil && certChain[i].Cert != nil
 //@   ensures[write-failure-surfaces] failed(w) ==> result != nil
@@ -61,7 +61,7 @@ package certurl
 // EncodeTo: one canonical map with "cert" always and "ocsp"/"sct" exactly
 // when present.
 //@ func (*AugmentedCertificate).EncodeTo
-//@   props C17 C19
+//@   props C17 C19 C18
 //@   requires enc != nil && enc.w != nil && !failed(enc.w) && ac.Cert != nil
 //@   ensures[write-failure-surfaces] failed(enc.w) ==> result != nil
 //@   ensures accepted(enc.w) >= old(accepted(enc.w)) && accepted(enc.w) - wrapped(enc.w) == old(accepted(enc.w) - wrapped(enc.w))
